@@ -4,6 +4,8 @@ Plans (every order class = kind x side; amounts from a solver-chosen set; prices
   single : bar0, order, bar1, then {bar2 | cancel + bar2'}            one order living through up to two bars
   pair   : bar0, order1, order2 (class from `second`), bar1, cancel the survivors, bar2   two orders in one bar
   loans  : (margin lending) bar0, loan, order with auto-borrow/auto-repay flags, bar1, repay, bar2
+  cross  : two pairs sharing the quote symbol: bar0 of each, an order on each, bar1 of each
+  loan_only : (margin lending) bar0, loan, bar1, repay, repay again, order
 """
 from decimal import Decimal
 
@@ -65,6 +67,25 @@ def history(ctx, props=(), plan="single", kind=None, side=None, second="compete"
             w.check("cancel survivors")
             b, pre = w.feed_bar("b2")
             w.check("bar2 after cancels", pre, b)
+    elif plan == "cross":
+        # two traded pairs sharing the quote symbol: an order on each, a bar of each (the first bar of the second pair
+        # arrives only now), then the survivors are cancelled
+        b, pre = w.feed_bar("b0e", pair_idx=1)
+        w.check("bar0 of the second pair", pre, b)
+        o1 = w.place("o1", kind=kind, side=_side(side), pair_idx=0)
+        w.check("place1")
+        k2, s2 = ctx.pick("o2_class", SECOND[second])
+        o2 = w.place("o2", kind=k2, side=_side(s2), pair_idx=1)
+        w.check("place2 (second pair)")
+        b, pre = w.feed_bar("b1", pair_idx=0)
+        w.check("bar1 of the first pair", pre, b)
+        b, pre = w.feed_bar("b1e", pair_idx=1)
+        w.check("bar1 of the second pair", pre, b)
+        if depth >= 3:
+            for o in (o1, o2):
+                if o is not None and w.info(o).is_open:
+                    w.cancel(o)
+            w.check("cancel survivors")
     elif plan == "loans":
         l1 = w.create_loan("l1", symbol=loan_symbol, extra_decimals=loan_extra_decimals)
         w.check("loan1")
@@ -145,6 +166,8 @@ def standard_plans(tier, borrow_limit_orders=True):
     ps.append(dict(plan="loans", depth=2, bp=8, qp=2, lend="margin_base_only", namounts=2, closes=CLOSES,
                    kinds=["limit", "market"], sides=["sell"], auto_borrow=True, auto_repay=False, loan_symbol="BTC",
                    min_fee="5"))
+    # two traded pairs sharing the quote symbol
+    ps.append(dict(plan="cross", depth=2, npairs=2, bp=8, qp=2, namounts=1, kinds=["limit", "market"]))
     # a quote precision of 0 (whole units only)
     ps.append(dict(plan="single", depth=2, bp=2, qp=0, kinds=["market", "limit"]))
     # two bar events of one pair for the same instant, each granting its own liquidity (partial fills on both)
@@ -162,6 +185,7 @@ def standard_plans(tier, borrow_limit_orders=True):
             dict(plan="single", depth=3, bp=0, qp=2, namounts=3),
             dict(plan="single", depth=3, bp=8, qp=2, liq="vsi", vols=VOLS, split=16),
             dict(plan="pair", depth=3, bp=8, qp=2, second="all", split=16),
+            dict(plan="cross", depth=3, npairs=2, bp=8, qp=2, namounts=1, kinds=["stop", "stop_limit"], second="all"),
         ]
         for ab in (False, True):
             for ar in (False, True):
@@ -184,7 +208,7 @@ BOUNDS_THOROUGH = (
     "quick plans plus: fee schemes none / percentage without minimum, precisions (2,0), (8,8), 3 amounts, "
     "VolumeShareImpact at depth 3, pair with the second order from all 8 classes followed by cancels and a bar, loans "
     "at depth 3 (repay twice | cancel | second loan, then a bar) with minimum interest 0.01")
-BASE_OUTSIDE = ["histories deeper than the stated plans", "more than one traded pair per history in this check "
+BASE_OUTSIDE = ["histories deeper than the stated plans", "more than two traded pairs per history in this check "
                 "(C03 runs three pairs through the whole dispatcher stack)", "Decimal context rounding at 28 digits"]
 BASE_ASSUMPTIONS = [
     "exact decimal arithmetic: inputs are bounded (balances <= 1e12 units, prices <= 1e9 units of quote precision, "
